@@ -4,6 +4,7 @@ package c15
 import (
 	"encoding/json"
 	"fmt"
+	"regexp"
 	"strings"
 	"testing"
 
@@ -278,6 +279,8 @@ func neutral(s string) string {
 	return s
 }
 
+var reEndNoMarker = regexp.MustCompile(`\{%\s*end(\s+raw)?\s*%\}`)
+
 var counter int
 
 // multiline reports whether multi-line tokens and a final non-text token may be generated
@@ -335,24 +338,28 @@ func genParts(t *rapid.T, ext string, depth int) []Part {
 			}
 		case 8, 9:
 			marker := rapid.SampledFrom([]string{"", "", " code", " m1"}).Draw(t, "marker")
-			content := rapid.SampledFrom([]string{"raw {{ x }} text", "\n  {% if %}\n", "{# not a comment #}", "", "\n", " ", "a\n{% end %}\nb", "{% end raw %}x", "{{", "#}", "line1\nline2\n"}).Draw(t, "rawcontent")
-			if marker == "" && (strings.Contains(content, "{% end %}") || strings.Contains(content, "{% end raw %}")) {
+			// raw content: pieces of look-alike syntax, including truncated terminators right before the real one
+			rawAtoms := []string{"raw {{ x }} text", "\n  {% if %}\n", "{# not a comment #}", "\n", " ", "a", "{% end %}", "{% end raw %}", "{{", "#}", "line1\nline2\n",
+				"{% end", "{%end", "{% end raw", "{% end raw cod", "{% end raw codex %}", "{% end raw code", "{%", "{", "%}", "end raw code %}", "{% endraw code %}", "{% end  raw  m1 %}", "{% end raw m1", "\t", "{% raw code %}", "{% end code %}", "{% end m1 %}"}
+			var cb strings.Builder
+			for k := rapid.IntRange(0, 4).Draw(t, "nraw"); k > 0; k-- {
+				cb.WriteString(rapid.SampledFrom(rawAtoms).Draw(t, "rawatom"))
+			}
+			content := cb.String()
+			if marker == "" && reEndNoMarker.MatchString(content) {
 				marker = " code"
 			}
+			// the content must not contain a terminator of its own block
+			if marker != "" {
+				m := strings.TrimSpace(marker)
+				re := regexp.MustCompile(`\{%\s*end\s+(raw\s+)?` + m + `\s*%\}`)
+				content = re.ReplaceAllString(content, "{% end raw other %}")
+			}
 			closer := "{% end %}"
-			switch rapid.IntRange(0, 2).Draw(t, "closer") {
-			case 1:
-				closer = "{% end raw %}"
-			case 2:
-				if marker != "" {
-					closer = "{% end raw" + marker + " %}"
-				}
-			}
-			if marker != "" && closer == "{% end %}" && (strings.Contains(content, "{% end %}")) {
-				closer = "{% end raw" + marker + " %}"
-			}
 			if marker != "" {
 				closer = "{% end raw" + marker + " %}"
+			} else if rapid.Bool().Draw(t, "closer") {
+				closer = "{% end raw %}"
 			}
 			parts = append(parts, Part{Kind: "raw-open", Src: []byte("{% raw" + marker + " %}")}, Part{Kind: "raw-content", Src: []byte(content), Out: []byte(content)}, Part{Kind: "raw-close", Src: []byte(closer)})
 		default:
